@@ -1,10 +1,12 @@
 /-
   Driver handlers for C19: calc_levels / fcart_layout models, the layout checker `holdsLayout`
-  (fed with the IMPLEMENTATION's coordinates), and the Mover model run over an operation history.
+  (fed with the IMPLEMENTATION's coordinates), the multipartite layout model (networkx placement in exact
+  rationals, for given per-layer member orders), and the Mover model run over an operation history.
   Rationals travel as `[num, den]`.
 -/
 import Fca.Drv.Util
 import Fca.Model.Layout
+import Fca.Model.LayoutMP
 import Fca.Model.Mover
 open Lean
 namespace Fca.Drv.C19
@@ -82,6 +84,31 @@ def fcartH : Handler := fun j => do
   | .error e, _ => pure (vErr e)
   | _, .error e => pure (vErr e)
 
+/-- the iteration order of a layer's set: the listed order whose members are exactly the group `g`
+    (ascending listing); a group that is not listed keeps its ascending order -/
+def ordOf (orders : List (List Nat)) (g : List Nat) : List Nat :=
+  match orders.find? (fun o => sortNats o == g) with
+  | some o => o
+  | none => g
+
+/-- `{"op":"C19.mpLayout", poset.., "orders":[[..],..], "cover":[[..]]}` →
+    `{"pos":[[[n,d],[n,d]],..], "levels":[..], "layers":[[..],..], "ord_ok":bool, "holds":bool}` | err
+    (`orders` = member order of each layer as the implementation iterated it; `layers` = the model's layers
+    in that order; `ord_ok` = every layer of the model was given an order, i.e. the parameter `ord` of
+    `multipartite_layout_exact` is a permutation on the layers; `holds` = the checker's verdict on the MODEL's
+    own output for the given cover relation) -/
+def mpLayoutH : Handler := fun j => do
+  let P ← getPoset j
+  let orders ← getNatLists j "orders"
+  let cover ← getNatLists j "cover"
+  match calcLevels P (defaultFuel P), multipartiteLayout P (defaultFuel P) (ordOf orders) with
+  | .ok (cl, _), .ok pos =>
+    let okOrd := (mpKeys cl).all fun k => orders.any fun o => sortNats o == mpGroup cl k
+    pure (Json.mkObj [("pos", jPos pos), ("levels", jNats cl), ("layers", jNatss (mpLayers cl (ordOf orders))),
+      ("ord_ok", Json.bool okOrd), ("holds", Json.bool (holdsLayout cover cl pos))])
+  | .error e, _ => pure (vErr e)
+  | _, .error e => pure (vErr e)
+
 /-- `{"op":"C19.check","parents":[[..]],"levels":[..],"pos":[..]}` → `{"holds":bool, parts}` -/
 def checkH : Handler := fun j => do
   let parents ← getNatLists j "parents"
@@ -133,6 +160,7 @@ def moverH : Handler := fun j => do
   | .ok m => pure (Json.mkObj [("init", jState m), ("trace", Json.arr (runTrace m ops).toArray)])
 
 def handlers : List (String × Handler) :=
-  [("C19.levels", levelsH), ("C19.fcart", fcartH), ("C19.check", checkH), ("C19.mover", moverH)]
+  [("C19.levels", levelsH), ("C19.fcart", fcartH), ("C19.mpLayout", mpLayoutH), ("C19.check", checkH),
+   ("C19.mover", moverH)]
 
 end Fca.Drv.C19
